@@ -1,3 +1,4 @@
+import PLV.Model.Sha1
 /-
   Line-protocol driver (DESIGN §2.4): reads one command per line on stdin, prints one line per
   command. Runs the executable model and evaluates the judge predicates on implementation
@@ -481,6 +482,11 @@ def step (s : DState) (line : String) : DState × String :=
       | "restored" :: "err" :: _ => "J C09 ok"
       | _ => "J C09 bad " ++ joinWith " " out)
   | ["read", _] => (s, "read")
+  | ["v5", ns, c] =>
+    -- the id (as a 128-bit number) a generator over namespace `ns` returns for counter value `c`
+    (match ns.toNat?, c.toNat? with
+     | some n, some k => (s, "v5 " ++ toString (Sha1.txId n k))
+     | _, _ => bad s line)
   | ["quiet", _] => (s, "quiet")   -- harness-only switch (sparse observation); nothing changes in the model
   | ["state"] => (s, "state " ++ showState s.lvl)
   | [""] => (s, "")
